@@ -66,6 +66,17 @@ TTx == /\ \E n \in TxEvents : Ev(n)
        /\ Judge(E) /\ UNCHANGED <<c, cur>>
 TEnd == /\ Ev("EndBlock") /\ E.vok          \* the block the real miner sealed is accepted and executed by the real validator
         /\ Judge(E) /\ cur' = E.post /\ UNCHANGED c
-TraceNext == TReset \/ TTx \/ TEnd
+\* Known defect, second face: a negative transferAmount to an account that does not hold the asset yet makes the
+\* processor PANIC while mining (the negative equity cannot be RLP-encoded, the revert then trips over the first-equity
+\* change log).  TraceBase.Ev never consumes a panic line; this action does, only for exactly that input and only if listed.
+TNegPanic == /\ l <= Len(Trace) /\ Trace[l].ev = "AssetTransfer" /\ "panic" \in DOMAIN Trace[l] /\ l' = l + 1
+             /\ Check = "C12" /\ Has("Dev_NegativeAssetTransferPanics") /\ Trace[l].a[3] < 0
+             /\ UseDev("Dev_NegativeAssetTransferPanics") /\ UNCHANGED <<c, cur>>
+\* Known defect of the change journal (C07 Dev_UndoFirstEquityPanics) reached through a transaction: an asset transfer to a
+\* contract whose code fails, when the contract does not hold that asset yet, makes the processor PANIC in the revert.
+TRevPanic == /\ l <= Len(Trace) /\ Trace[l].ev = "AssetTransfer" /\ "panic" \in DOMAIN Trace[l] /\ l' = l + 1
+             /\ Check = "C12" /\ Has("Dev_AssetToFailingContractPanics") /\ Trace[l].a[2] \in c.rev /\ Trace[l].a[3] >= 0
+             /\ UseDev("Dev_AssetToFailingContractPanics") /\ UNCHANGED <<c, cur>>
+TraceNext == TReset \/ TTx \/ TEnd \/ TNegPanic \/ TRevPanic
 TraceSpec == l = 1 /\ c = <<>> /\ cur = <<>> /\ [][TraceNext]_mvars
 ====
